@@ -11,8 +11,9 @@ DRV = 'drv_c19'
 REGISTRY = {
     'id': 'C19',
     'text': 'Lean theorems about the model of permutations/product/combinations/combinations_with_replacement: the four counting '
-            'formulas (descFactorial, choose, multichoose, power), empty result for size > n in the non-repeating forms, and the '
-            'elementwise specification (each result is the selected residues with their own mods in itertools order, wrapped in the '
+            'formulas (descFactorial, choose, multichoose, power), empty result for size > n in the non-repeating forms, equality of '
+            'the four enumerations with the itertools-documentation definitions (filtered lexicographic index tuples: content and '
+            'order, any pool, any size), and the elementwise specification (each result is the selected residues with their own mods in itertools order, wrapped in the '
             'unchanged labile/global/terminal/charge annotations); the model (own itertools enumerations, split, one-residue slice) is '
             'tied to /repo by list-exact correspondence on generated annotations of length 1..6 x every size; the oracle evaluates the '
             'property on the implementation against Python\'s own itertools over split() pieces, the counts and re-parsing of every result',
